@@ -150,7 +150,8 @@ CLAIMED['C05'] = dict(
         "(stop-token units), the expression parser raises nothing else when the input ends where an expression is expected. "
         "'Always rejected' for every well-formed document plus one fault is the stated (not mechanised) lemma over these "
         "mechanisms. The assumption of an unbounded call stack (A-SEM) is probed on the real code with 50 / 400 nested groups: "
-        "the 400-deep input raises RecursionError (known finding).",
+        "the 400-deep input raises RecursionError (known finding). The property is stated for tolerant_parsing=False: the shared "
+        "units are explored on their strict paths only.",
    ref="DESIGN.md section 5, C05", note=_PARSE_NOTE)
 CLAIMED['C06'] = dict(
    text="Proof of the mechanisms: in tolerant mode __exit__ swallows every LatexWalkerParseError and remembers the error object, "
